@@ -30,6 +30,19 @@ def c12_scenarios(flavour, n, max_edges, removals=False):
                                                              'meta': {'seq': seq, 'family': 'roundtrip', 'removal': rem}}
 
 
+def c12_scale_up(finding):
+    """native confirmation on a larger graph of the same kind (see runner.triage: escalate): 12 nodes, 60 edges with
+    distinct values, every node with 5 outgoing edges, followed by the finding's own removal (if any) and round trip"""
+    scen = finding['scen']
+    n = 12
+    nodes = [[i, 3 * i + 1] for i in range(n)]
+    pre = [['connect', i, (i + d) % n, 100 * i + d] for i in range(n) for d in (1, 2, 3, 5, 7)]
+    rem = [scen['meta']['removal']] if scen['meta'].get('removal') else []
+    steps = pre + rem + [['g_new']] + [['g_insert', i] for i in range(n)] + [['dump', 'lite'], ['g_roundtrip']]
+    yield {'flavour': scen['flavour'], 'nodes': nodes, 'steps': steps,
+           'meta': {'seq': [[s[1], s[2]] for s in pre], 'family': 'roundtrip', 'scaled_from': scen['meta'].get('seq')}}
+
+
 def evaluate_c12(prop, scen, obs, ctx):
     fl = scen['flavour']
     ab = abnormal(obs)
@@ -150,11 +163,12 @@ def run(prop, tier, seed):
             bounds={'nodes': 3 if tier == 'quick' else '3 (<=5 edges), 4 (<=3 edges)', 'max_edges': 4 if tier == 'quick' else 5, 'symbolic': 'node values, edge values',
                     'free_choices': 'hash iteration order during serialisation', 'pre_histories': 'connect-only, and connect-only followed by one disconnect / isolate (<=3 edges, thorough 4)',
                     'level': 'serde data model: stub Serializer records the 2-tuple of sequences gdsl emits, stub SeqAccess hands it back',
+                    'std_contract': 'slice::sort_unstable* may order equal elements in any way (free choice); a counterexample resting on that is confirmed natively on a 12-node / 60-edge variant, where std really reorders',
                     'outside': 'serde_json / serde_cbor byte formats (exercised natively on every validation scenario and replay, not encoded)'},
             assumptions=['a wire format transports the serde data model faithfully for integer keys and values',
                          'AHashMap modelled as association list with free iteration order', 'std models of engine A'],
             rule='work item = canonical connect sequence, all nodes members; executor paths = iteration orders; oracle compares the rebuilt graph with the original per node',
-            expected_cells=[(fl, k) for fl in FLAVOURS for k in ('roundtrip', 'roundtrip-after-removal')])
+            expected_cells=[(fl, k) for fl in FLAVOURS for k in ('roundtrip', 'roundtrip-after-removal')], escalate=c12_scale_up)
     items = []
     for fl in FLAVOURS:
         items += list(c13_scenarios(fl, 3, 3) if tier == 'quick' else c13_scenarios(fl, 3, 4))
